@@ -402,10 +402,19 @@ func (m *ServeMux) iqRouter(t xmlstream.TokenReadEncoder, start *xml.StartElemen
 		TokenReader: decl.TrimLeftSpace(xmlstream.Inner(t)),
 	}
 	tok, err := t.Token()
-	// If we get any error return it, unless it's an EOF then don't return it if
-	// it's a result IQ (which may be empty).
-	if err != nil && (err != io.EOF || iq.Type != stanza.ResultIQ) {
+	if err != nil && err != io.EOF {
 		return err
+	}
+	// Only result IQs may be empty.
+	// An empty IQ of any other type is an error, but requests still have to be
+	// answered so respond with the fallback first.
+	// Do not return a bare io.EOF: callers such as Session.Serve take that for
+	// the end of the input stream and would stop without reporting anything.
+	if err == io.EOF && iq.Type != stanza.ResultIQ {
+		if e := iqFallback(iq, t, start); e != nil {
+			return e
+		}
+		return fmt.Errorf("%w", err)
 	}
 	payloadStart, ok := tok.(xml.StartElement)
 	if tok != nil && !ok {
